@@ -720,6 +720,42 @@ func ecdsaScenario(variant int) func() instance {
 	}
 }
 
+// ecdsaCurvesScenario: three goroutines sign (and one key-blinds) on three different curves at
+// once: whatever the package keeps per curve must not be shared between them.
+func ecdsaCurvesScenario() instance {
+	curves := []elliptic.Curve{elliptic.P224(), elliptic.P384(), elliptic.P521()}
+	type res struct {
+		r, s *big.Int
+		err  error
+	}
+	out := make([]res, 3)
+	keys := make([]*ecdsa.PrivateKey, 3)
+	refs := make([]*ecdsa.PrivateKey, 3)
+	digest := sha512.Sum384([]byte("three curves"))
+	in := instance{}
+	for i, c := range curves {
+		n := (c.Params().N.BitLen() + 7) / 8
+		k, err := ecdsa.CreateKey(c, fill(fmt.Sprintf("curve-key-%d", i), n-1))
+		must(err)
+		rk, _ := ecdsa.CreateKey(c, fill(fmt.Sprintf("curve-key-%d", i), n-1))
+		keys[i], refs[i] = k, rk
+		i := i
+		in.bodies = append(in.bodies, func() { out[i].r, out[i].s, out[i].err = ecdsa.Sign(threadReader{}, keys[i], digest[:]) })
+	}
+	in.check = func() (string, error) {
+		for i, c := range curves {
+			if out[i].err != nil {
+				return "", fmt.Errorf("concurrent Sign on %s failed: %v", c.Params().Name, out[i].err)
+			}
+			if !stdecdsa.Verify(&stdecdsa.PublicKey{Curve: c, X: refs[i].X, Y: refs[i].Y}, digest[:], out[i].r, out[i].s) {
+				return "", fmt.Errorf("signature made on %s while other goroutines sign on other curves is rejected by crypto/ecdsa", c.Params().Name)
+			}
+		}
+		return "ok", nil
+	}
+	return in
+}
+
 // ---- Ed25519 (tables reset so that first use is explored in every execution) ----
 
 func ed25519Scenario(variant int) func() instance {
@@ -1056,5 +1092,6 @@ var scenarios = []scenario{
 	{"type5-evaluate-evaluate-tokenkeyid-on-an-issuer-with-a-history", t5ScenarioH(false, true)},
 	{"type2-evaluate-evaluate-tokenkeyid-on-an-issuer-with-a-history", t2ScenarioHist},
 	{"ecdsa-two-blinding-keys-two-contexts", ecdsaScenario(2)},
+	{"ecdsa-sign-on-three-curves", ecdsaCurvesScenario},
 	{"type3-attester-verifyrequest-honest-forged-honest", attesterScenario},
 }
